@@ -72,15 +72,29 @@ func VerifH_C10_podOutcome() {
 		pod.DeletionTimestamp = &t
 	}
 	oom := false
-	maxc := 1
-	if vz.Thorough() {
-		maxc = 2
-	}
-	n := vz.Choice("ncontainers", maxc+1)
+	n := vz.Choice("ncontainers", 3)
 	for i := 0; i < n; i++ {
 		tag := []string{"c0", "c1"}[i]
 		cs := corev1.ContainerStatus{Name: tag}
 		var o1, o2 bool
+		if i == 1 && !vz.Thorough() {
+			// quick tier: the second container is terminated (OOMKilled / Error / no reason) or running, without timestamps
+			switch vz.Choice(tag+".lite", 4) {
+			case 0:
+				cs.State.Terminated = &corev1.ContainerStateTerminated{Reason: "OOMKilled"}
+				o1 = true
+			case 1:
+				cs.State.Terminated = &corev1.ContainerStateTerminated{Reason: "Error"}
+			case 2:
+				cs.State.Terminated = &corev1.ContainerStateTerminated{}
+			case 3:
+				cs.State.Running = &corev1.ContainerStateRunning{}
+			}
+			oom = oom || o1
+			pod.Status.ContainerStatuses = append(pod.Status.ContainerStatuses, cs)
+			vz.Cover("two-containers")
+			continue
+		}
 		cs.State, o1 = verifContainerState(tag)
 		// (a last-termination state on the second container as well did not finish within 40 minutes)
 		if i == 0 && vz.Bool(tag+".hasLastTermination") {
